@@ -18,8 +18,8 @@ EXPLANATION = (
     "and kept otherwise. R6: tick-scoped buffers are consumed exactly once per tick after their last reader. R7: buffers filled "
     "every frame but flushed only on ticks merge keyed writes instead of overwriting. R8: the update channel is reliable-ordered "
     "and channel ids agree with the channel table.")
-NOT_DECIDED = ("convergence itself; the per-component send-rate gate under per-entity acknowledgement (D10), removal-then-despawn "
-               "zombie (D12), acknowledge-on-receipt then skip-as-outdated (D13) are behavioural and not detected")
+NOT_DECIDED = ("convergence itself over all histories and schedules; D10 (a change withheld by the send rate is forgotten) is detected by R11 and recorded as a known finding; D12 and D13 are decided by C03.R9 and "
+               "C11.R4 (both found and fixed)")
 TRUSTED_BASE = ["ComponentTicks::is_changed / Tick::is_newer_than of bevy_ecs", "reliable-ordered channels deliver in order without loss"] + C11.TRUSTED_BASE
 
 MUT = "bevy_replicon::server::replication_messages::mutations::Mutations"
@@ -77,8 +77,7 @@ def r1_resend_baseline(ctx):
         none = any(c["kind"] == "variant" and o == {"None"} for (_, c, o) in g)
         ctx.check(none, "collect_changes/full-send-when-no-baseline", site_of(cc, bb), "the full-insertion branch is not the `no usable baseline` branch")
     # the baseline is discarded (-> full send) for new / just-visible entities and freshly added components
-    filt = [t for _, t in cc.calls() if callee_decl(t).endswith("Option::<T>::filter")]
-    ctx.check(len(filt) >= 3, "collect_changes/baseline-filters", site_of(cc), "the baseline is used even for new entities / regained visibility / freshly inserted components (%d filters)" % len(filt))
+    # (which conditions discard the baseline is decided by the first-sight rule, C01.R10)
 
 
 def r2_ack(ctx):
@@ -383,15 +382,76 @@ def r9_ack_lists(ctx):
     C10.r1_boundaries(ctx)
 
 
+def r10_first_sight(ctx):
+    from rules.first_sight import r_first_sight
+    r_first_sight(ctx)
+
+
+def r11_withheld_change_pending(ctx):
+    """A change that the send rate withholds on this tick must stay pending. The baseline against which changes are detected is kept
+    per *entity* (ClientTicks::mutation_tick(entity)); it advances when any mutate message containing the entity is acknowledged and
+    when the entity gets an update record. If the path `changed since the baseline, but the send rate says not now` leaves no trace
+    (no call at all between the send-rate test and the join), the next acknowledgement for the entity moves the baseline past the
+    withheld change and it is never sent."""
+    F = ctx.F
+    cc = ctx.fn("server::collect_changes")
+    adds = [bb for bb, t in cc.calls() if callee_decl(t) == MUT + "::add_component"]
+    if not adds:
+        ctx.bad("collect_changes/add_component", site_of(cc), "no mutation write found", kind="anchor-missing")
+        return
+    g = required_outcomes(F, cc, adds[0])
+    changed = [(s_, c) for (s_, c, o) in g if c["kind"] == "boolcall" and c["name"].endswith("ComponentTicks::is_changed") and o == {True}]
+    rate = [(s_, c) for (s_, c, o) in g if c["kind"] == "boolcall" and c["name"].endswith("SendRate::send_mutations") and o == {True}]
+    if not ctx.check(bool(changed) and bool(rate), "collect_changes/changed-and-rate-tests", site_of(cc, adds[0]), "the mutation write is not gated by is_changed(..) and send_mutations(..) tests"):
+        return
+    # premise 1: the baseline is keyed by the entity only
+    mt = ctx.fn("client_ticks::ClientTicks::mutation_tick")
+    per_entity = len(mt.j.get("inputs", [])) == 2
+    ctx.note("baseline granularity: ClientTicks::mutation_tick takes %d argument(s) besides self" % (len(mt.j.get("inputs", [])) - 1))
+    s_rate = rate[0][0]
+    s_chg = changed[0][0]
+    # the send-rate test sits behind the changed test (otherwise `withheld` is not distinguishable from `unchanged` anyway)
+    from flow import edge_outcome, switch_cond
+    c = switch_cond(cc, s_rate)
+    t_true = [t for (t, lab) in cc.succ[s_rate] if edge_outcome(F, cc, s_rate, lab, c) is True]
+    t_false = [t for (t, lab) in cc.succ[s_rate] if edge_outcome(F, cc, s_rate, lab, c) is False]
+    if not (t_true and t_false):
+        ctx.bad("collect_changes/send-rate-edges", site_of(cc, s_rate), "cannot tell the edges of the send-rate test apart", kind="anchor-missing")
+        return
+
+    def reach(start, stop):
+        seen, work = set(), [start]
+        while work:
+            x = work.pop()
+            if x in seen or x in stop:
+                continue
+            seen.add(x)
+            work += [t for (t, _) in cc.succ[x]]
+        return seen
+    loop = min(cc.loops_containing(s_rate), key=lambda hb: len(hb[1]))
+    stop = {loop[0]}
+    only_false = reach(t_false[0], stop) - reach(t_true[0], stop)
+    effects = [(bb, callee_decl(cc.blocks[bb].term)) for bb in sorted(only_false) if cc.blocks[bb].term["t"] == "call"]
+    ordered = cc.dominates(s_chg, s_rate)
+    ok = (not per_entity) or (ordered and bool(effects))
+    ctx.check(ok, "collect_changes/withheld-change-stays-pending", site_of(cc, s_rate),
+              "a component changed since the client's baseline but withheld by its send rate leaves no trace (the `send rate says no` edge does nothing), while the baseline is "
+              "kept per entity: once another component of the entity is acknowledged - or the entity gets an update record - the baseline moves past the withheld change "
+              "and the client never receives it (documented behaviour: `any mutation will be replicated every N-th tick`)",
+              "withheld path records: %s" % [short(e[1]) for e in effects] if effects else "baseline is per component")
+
+
 RULES = [
-    ("C01.R1", "mutations are (re)sent iff changed since the client's per-entity baseline and the send rate allows", r1_resend_baseline, 5, ["default", "all-features", "server-only"]),
+    ("C01.R1", "mutations are (re)sent iff changed since the client's per-entity baseline and the send rate allows", r1_resend_baseline, 4, ["default", "all-features", "server-only"]),
     ("C01.R2", "acknowledgement: recorded tick, known message, forward-only (same rule as C11.R2)", r2_ack, 6, ["default", "all-features", "server-only"]),
     ("C01.R3", "one clock: detection bound, baseline bump and registered tick are the system's this_run", r3_one_clock, 6, ["default", "all-features", "server-only"]),
-    ("C01.R4", "the client acknowledges exactly what it buffered (same rule as C11.R4)", r4_client_acks, 8, ["default", "all-features", "client-only"]),
+    ("C01.R4", "the client acknowledges exactly the messages it has consumed (same rule as C11.R4)", r4_client_acks, 8, ["default", "all-features", "client-only"]),
     ("C01.R5", "buffered mutate messages wait for their update tick; updates are applied first", r5_buffered_until_update_tick, 5, ["default", "all-features", "client-only"]),
     ("C01.R6", "tick-scoped buffers are consumed exactly once after their last reader", r6_tick_buffers, 10, ["default", "all-features", "server-only"]),
     ("C01.R7", "cross-frame accumulators merge keyed writes", r7_accumulate, 2, ["default", "all-features", "server-only"]),
     ("C01.R8", "update channel is reliable-ordered; channel ids match the channel table", r8_channels, 4, None),
     ("C01.R9", "an acknowledgement covers exactly the entities whose data travelled in that message (same rule as C10.R1)", r9_ack_lists, 12, ["default", "all-features", "server-only"]),
+    ("C01.R10", "first-sight completeness (rules/first_sight.py): which conditions discard the baseline and force a full send", r10_first_sight, 14, ["default", "all-features", "server-only"]),
+    ("C01.R11", "a change withheld by the send rate stays pending (per-entity baseline must not pass it unnoticed)", r11_withheld_change_pending, 2, ["default", "all-features", "server-only"]),
 ]
 THOROUGH_CONFIGS = ["default", "all-features", "server-only", "client-only"]
